@@ -449,6 +449,10 @@ pub fn work_dir() -> PathBuf {
 
 /// path of the repository's `parol_runtime`, as the harness itself depends on it
 fn runtime_path() -> Option<String> {
+    // experiments only (e.g. a mutated runtime to see the tie fail): another parol_runtime checkout
+    if let Ok(p) = std::env::var("C23_RUNTIME") {
+        return Some(p);
+    }
     let toml = std::fs::read_to_string(Path::new(env!("CARGO_MANIFEST_DIR")).join("Cargo.toml")).ok()?;
     for line in toml.lines() {
         if line.trim_start().starts_with("parol_runtime") {
